@@ -425,17 +425,18 @@ EXC_KINDS = ["builtin", "user-message-ctor", "user-two-arg-ctor", "user-no-arg-c
     covers=("rebuilt-same-class", "fallback-memento-exception", "never-recorded"),
     split={"store": [0, 1, 3]},
     bounds="9 exception kinds (builtin, user classes with 1-arg / 2-arg / 0-arg constructors, class local to a function, class in a module "
-           "that cannot be imported, NonMemoizedException and a subclass, nested class) x 4 messages (empty, plain, with ':' and newline, "
-           "non-ASCII) x {memory, fs, fs+cache}",
+           "that cannot be imported, NonMemoizedException and a subclass, nested class) x 5 messages (empty, plain, with ':' and newline, "
+           "non-ASCII, with a lone surrogate) x {memory, fs, fs+cache}",
     variables="choice: kind, message, store",
     budget_s={"quick": 170, "thorough": 600},
     choice_vars=3,
 )
 def exceptions(kind: int, mi: int, store: int):
     kind = pick(kind, len(EXC_KINDS))
-    mi = pick(mi, 4)
+    mi = pick(mi, 5)
     with concrete_region():
-        msg = ["", "plain", "a: b\nc::d", "hé世"][mi]
+        # (the last one: a lone surrogate, as produced by os.fsdecode for a file name that is not valid UTF-8)
+        msg = ["", "plain", "a: b\nc::d", "hé世", "no such file: caf\udce9.txt"][mi]
         sb = Sandbox(kinds=STORES[store])
         prog = Program("vpc02x")
         try:
